@@ -57,7 +57,9 @@ CanonField(f) == IF FieldTable[f].typ = "str" THEN CanonStrField(f)
                  ELSE CanonP2(wBass)     \* (player2 has two canonical forms, see IsCanonFieldLine)
 IsCanonFieldLine(f, s) == IF FieldTable[f].typ = "p2" THEN Accepts(CanonP2(wBass), s) \/ Accepts(CanonP2(wRhythm), s)
                           ELSE Accepts(CanonField(f), s)
-IsLibFieldLine(f, s) == Accepts(LibField(f), s)
+\* (cheap prefilter first: the line must start, after whitespace, with the field's name and " = ")
+IsLibFieldLine(f, s) == /\ StartsWithAt(s, SkipWhile(s, 1, "ws"), FieldTable[f].name \o sAssign)
+                        /\ Accepts(LibField(f), s)
 \* the documented defaults
 DefaultOf(f) == CASE f = "f_genre" -> <<"str", <<114, 111, 99, 107>>>>         \* "rock"
                   [] f = "f_media_type" -> <<"str", <<99, 100>>>>               \* "cd"
